@@ -956,6 +956,91 @@ def unsafe_texts(mats, rng):
     return out
 
 
+def flagged(f):
+    """run f; -> (a UserWarning 'may not be safe to import' was raised, outcome class)"""
+    with warnings.catch_warnings(record=True) as w:
+        warnings.simplefilter("always")
+        out, _ = outcome(f)
+    return any(issubclass(x.category, UserWarning) and "may not be safe" in str(x.message) for x in w), out
+
+
+PB_ALG, PB_ENC = "PBES2-HS256+A128KW", "A128GCM"
+
+
+class TextTokens:
+    """tokens made with the oct key of a text (what the owner of that secret - or the forger who knows a
+    public key's PEM text - would produce), for the verifying / decrypting routes"""
+
+    def __init__(self, text):
+        from joserfc import jws, jwe, jwt
+        from joserfc.jwe import JWERegistry
+        from joserfc.jwk import OctKey
+        from joserfc.rfc7797 import serialize_compact as sc97, serialize_json as sj97
+        k = OctKey(text, text)          # no import: no warning while preparing
+        A, E = ["HS256"], [PB_ALG, PB_ENC]
+        self.c = jws.serialize_compact({"alg": "HS256"}, PAYLOAD, k, algorithms=A)
+        self.flat = jws.serialize_json({"protected": {"alg": "HS256"}}, PAYLOAD, k, algorithms=A)
+        self.gen = jws.serialize_json([{"protected": {"alg": "HS256"}}], PAYLOAD, k, algorithms=A)
+        self.c97 = sc97(h7797("HS256"), PAYLOAD, k, algorithms=A)
+        self.j97 = sj97({"protected": h7797("HS256")}, PAYLOAD, k, algorithms=A)
+        self.jwt = jwt.encode({"alg": "HS256"}, dict(CLAIMS), k, algorithms=A)
+        self.ec = jwe.encrypt_compact({"alg": PB_ALG, "enc": PB_ENC}, b"hello", k, algorithms=E)
+        self.eflat = jwe.encrypt_json(jwe_obj("EEncFlat", PB_ALG, PB_ENC), k, algorithms=E)
+        self.egen = jwe.encrypt_json(jwe_obj("EEncGen", PB_ALG, PB_ENC), k, algorithms=E)
+        self.ejwt = jwe.encrypt_compact({"typ": "JWT", "alg": PB_ALG, "enc": PB_ENC}, json.dumps(CLAIMS), k, algorithms=E)
+
+
+def text_routes():
+    """-> [(name, Coq route, f(arg, tokens) -> thunk, takes_callable)]: every way key text becomes an oct key"""
+    from joserfc import jws, jwe, jwt
+    from joserfc.jwe import JWERegistry
+    from joserfc.jwk import OctKey, JWKRegistry
+    from joserfc.rfc7797 import (serialize_compact as sc97, deserialize_compact as dc97,
+                                 serialize_json as sj97, deserialize_json as dj97)
+    A, E = ["HS256"], [PB_ALG, PB_ENC]
+    cp = lambda x: json.loads(json.dumps(x))     # noqa
+    imp = [
+        ("OctKey.import_key", "RtImportKey", lambda a, t: (lambda: OctKey.import_key(a))),
+        ("OctKey.import_key(parameters=)", "RtImportKey", lambda a, t: (lambda: OctKey.import_key(a, {"use": "sig"}))),
+        ("JWKRegistry.import_key(text, 'oct')", "RtRegistry", lambda a, t: (lambda: JWKRegistry.import_key(a, "oct"))),
+        ("JWKRegistry.import_key(text, 'oct', parameters)", "RtRegistry",
+         lambda a, t: (lambda: JWKRegistry.import_key(a, "oct", {"kid": "x"}))),
+    ]
+    ent = [
+        ("jws.serialize_compact", lambda a, t: (lambda: jws.serialize_compact({"alg": "HS256"}, PAYLOAD, a, algorithms=A))),
+        ("jws.deserialize_compact", lambda a, t: (lambda: jws.deserialize_compact(t.c, a, algorithms=A))),
+        ("jws.serialize_json flattened", lambda a, t: (lambda: jws.serialize_json({"protected": {"alg": "HS256"}}, PAYLOAD, a, algorithms=A))),
+        ("jws.serialize_json general", lambda a, t: (lambda: jws.serialize_json([{"protected": {"alg": "HS256"}}], PAYLOAD, a, algorithms=A))),
+        ("jws.deserialize_json flattened", lambda a, t: (lambda: jws.deserialize_json(cp(t.flat), a, algorithms=A))),
+        ("jws.deserialize_json general", lambda a, t: (lambda: jws.deserialize_json(cp(t.gen), a, algorithms=A))),
+        ("rfc7797.serialize_compact b64=false", lambda a, t: (lambda: sc97(h7797("HS256"), PAYLOAD, a, algorithms=A))),
+        ("rfc7797.deserialize_compact b64=false", lambda a, t: (lambda: dc97(t.c97, a, algorithms=A))),
+        ("rfc7797.serialize_json b64=false", lambda a, t: (lambda: sj97({"protected": h7797("HS256")}, PAYLOAD, a, algorithms=A))),
+        ("rfc7797.deserialize_json b64=false", lambda a, t: (lambda: dj97(cp(t.j97), a, algorithms=A))),
+        ("rfc7797.serialize_compact (no b64)", lambda a, t: (lambda: sc97({"alg": "HS256"}, PAYLOAD, a, algorithms=A))),
+        ("rfc7797.deserialize_compact (no b64)", lambda a, t: (lambda: dc97(t.c, a, algorithms=A))),
+        ("jwt.encode", lambda a, t: (lambda: jwt.encode({"alg": "HS256"}, dict(CLAIMS), a, algorithms=A))),
+        ("jwt.decode", lambda a, t: (lambda: jwt.decode(t.jwt, a, algorithms=A))),
+        ("jwe.encrypt_compact PBES2", lambda a, t: (lambda: jwe.encrypt_compact({"alg": PB_ALG, "enc": PB_ENC}, b"hello", a, algorithms=E))),
+        ("jwe.decrypt_compact PBES2", lambda a, t: (lambda: jwe.decrypt_compact(t.ec, a, algorithms=E))),
+        ("jwe.encrypt_json flattened", lambda a, t: (lambda: jwe.encrypt_json(jwe_obj("EEncFlat", PB_ALG, PB_ENC), a, algorithms=E))),
+        ("jwe.encrypt_json general", lambda a, t: (lambda: jwe.encrypt_json(jwe_obj("EEncGen", PB_ALG, PB_ENC), a, algorithms=E))),
+        ("jwe.decrypt_json flattened", lambda a, t: (lambda: jwe.decrypt_json(cp(t.eflat), a, algorithms=E))),
+        ("jwe.decrypt_json general", lambda a, t: (lambda: jwe.decrypt_json(cp(t.egen), a, algorithms=E))),
+        ("jwt.encode (JWE)", lambda a, t: (lambda: jwt.encode({"alg": PB_ALG, "enc": PB_ENC}, dict(CLAIMS), a, registry=JWERegistry(algorithms=E)))),
+        ("jwt.decode (JWE)", lambda a, t: (lambda: jwt.decode(t.ejwt, a, registry=JWERegistry(algorithms=E)))),
+        ("jwe.encrypt_compact dir", lambda a, t: (lambda: jwe.encrypt_compact({"alg": "dir", "enc": "A128GCM"}, b"hello", a, algorithms=["dir", "A128GCM"]))),
+        ("jwe.encrypt_compact A128KW", lambda a, t: (lambda: jwe.encrypt_compact({"alg": "A128KW", "enc": "A128GCM"}, b"hello", a, algorithms=["A128KW", "A128GCM"]))),
+        ("jwe.decrypt_compact dir (token of another key)", lambda a, t: (lambda: jwe.decrypt_compact(
+            t.ec.replace(t.ec.split(".")[0], "eyJhbGciOiJkaXIiLCJlbmMiOiJBMTI4R0NNIn0"), a, algorithms=["dir", "A128GCM"]))),
+    ]
+    out = [(n, r, f, False) for n, r, f in imp]
+    for n, f in ent:
+        out.append((n + " [key given as text]", "RtEntryArg", f, False))
+        out.append((n + " [callable returning text]", "RtEntryCallable", f, True))
+    return out
+
+
 def import_warns(text, as_str=False):
     from joserfc.jwk import OctKey
     arg = text.decode("latin1") if as_str else text
@@ -1199,6 +1284,47 @@ def run(ctx):
             gaps[g] = gaps.get(g, 0) + 1
     dist["unsafe_import"] = nwarn
 
+    # ---- the same through EVERY route by which key text becomes an oct key
+    routes = text_routes()
+    texts = [(lab, txt, must) for lab, txt, must in unsafe_texts(mats, rng) if len(txt) > 0]
+    texts += [("random secret", bytes(rng.randrange(33, 127) for _ in range(rng.choice([8, 16, 32, 40]))), False)
+              for _ in range(ctx.scale(12, 100))]
+    nroute = 0
+    for ti, (label, text, must) in enumerate(texts):
+        benign = (must is False) or (must is None and label.startswith("literal") and
+                                     not any(text.lstrip(b" \t\n\r\x0b\x0c").startswith(p_) for p_ in
+                                             (b"-----BEGIN ", b"---- BEGIN ", b"ssh-rsa ", b"ssh-dss ", b"ssh-ed25519 ", b"ecdsa-sha2-")))
+        if not ctx.quick or ti % 5 == 0:
+            chosen = routes
+        else:
+            chosen = rng.sample(routes, 7)
+        try:
+            toks = TextTokens(text)
+        except Exception as e:  # noqa
+            ctx.notes.append("no tokens for text %s: %r" % (label, e))
+            continue
+        as_str = all(b < 128 for b in text) and rng.random() < 0.5
+        arg0 = text.decode("ascii") if as_str else text
+        obs = []
+        for name, croute, mk, via_callable in chosen:
+            arg = (lambda o, _a=arg0: _a) if via_callable else arg0
+            w, out = flagged(mk(arg, toks))
+            nroute += 1
+            ctx.note_case(("route", name, text))
+            obs.append("(%s, %s)" % (croute, c_bool(w)))
+            sig = {"kind": None, "route": name.split(" [")[0], "how": croute}
+            rep = {"text_hex": text.hex(), "label": label, "route": name, "as_str": as_str, "outcome": out}
+            if must and not w:
+                sig["kind"] = "unsafe-key-text-not-flagged"
+                ctx.violation(sig, "%s with %s as the key raised no 'may not be safe to import' warning (call outcome: %s)" % (
+                    name, label, out), rep)
+            elif benign and w:
+                sig["kind"] = "benign-secret-flagged"
+                ctx.violation(sig, "%s with the ordinary secret %r raised the unsafe-key warning" % (name, text[:40]), rep)
+        cases.append("CWarnRoutes %s %s %s" % (c_hex(text), c_N(8 * len(text)), c_list(obs)))
+        meta.append(({"fam": "warn", "entry": "warn-routes", "label": label, "text_hex": text.hex()}, "routes"))
+    dist["unsafe_import_routes"] = nroute
+
     # ---- recorded gaps (not raised)
     ctx.notes.append("recorded gaps (not raised): %s" % json.dumps({"unsafe-import (no warning)": gaps}))
 
@@ -1257,6 +1383,17 @@ def replay(path):
     r = json.load(open(path))
     rep = r["replay"]
     print("replay:", r["description"])
+    if "text_hex" in rep and "route" in rep:
+        text = bytes.fromhex(rep["text_hex"])
+        arg0 = text.decode("ascii") if rep.get("as_str") else text
+        for name, croute, mk, via_callable in text_routes():
+            if name == rep["route"]:
+                arg = (lambda o: arg0) if via_callable else arg0
+                w, out = flagged(mk(arg, TextTokens(text)))
+                print("%s: warned=%s outcome=%s" % (name, w, out))
+                bad = (not w) if r["signature"]["kind"] == "unsafe-key-text-not-flagged" else w
+                return 1 if bad else 0
+        return 1
     if "text_hex" in rep:
         text = bytes.fromhex(rep["text_hex"])
         w = import_warns(text)
